@@ -101,9 +101,10 @@ def free_names(tree):
 
     def walk(n, bound):
         if isinstance(n, ast.Lambda):
-            for d in n.args.defaults:
+            a = n.args
+            for d in list(a.defaults) + [d for d in a.kw_defaults if d is not None]:
                 walk(d, bound)
-            walk(n.body, bound | {a.arg for a in n.args.args})
+            walk(n.body, bound | {x.arg for x in a.posonlyargs + a.args + a.kwonlyargs} | {x.arg for x in (a.vararg, a.kwarg) if x is not None})
             return
         if isinstance(n, (ast.ListComp, ast.GeneratorExp)):
             b = set(bound)
